@@ -89,26 +89,37 @@ THEOREMS = [
     "BeyondVerif.C05.j2_node_rate_eq_sso",
 ]
 LEVEL_TEXT = ("Lean theorems over R about the element update translated from kepler.py, j2.py and Infos.n on every run: a, e, i, node, perigee constant and "
-              "M advanced by sqrt(mu/|a|^3) dt for all inputs; composition and inverse exact for all t1, t2; one period adds exactly 2 pi; for bound orbits the perifocal "
-              "coordinates of the propagated state satisfy Newton's equation r'' = -mu r/|r|^3 (HasDerivAt, all t); "
+              "M advanced by sqrt(mu/|a|^3) dt for all inputs; composition and inverse exact for all t1, t2; one period adds exactly 2 pi. "
+              "TWO-BODY SOLUTION, both conics, in the frame: with E(t) (H(t)) the solution of the (hyperbolic) Kepler equation for the advanced mean anomaly, the six components "
+              "of the CARTESIAN state computed by the library's own conversion chain (Form._keplerian_eccentric_to_keplerian and _keplerian_to_cartesian, translated from forms.py "
+              "on every run and proved equal to the textbook perifocal coordinates rotated by the constant matrix R3(-raan) R1(-i) R3(-argp)) satisfy r' = v, v' = -mu r/|r|^3 with the 3-D norm "
+              "(HasDerivAt, all t, Delta t of either sign; e < 1 with a > 0 and e > 1 with a < 0). "
+              "UNIVERSAL VARIABLES: for the initial cartesian state c0 the universal anomaly chi = sqrt(|a|) (E - E0) solves the universal Kepler equation written with alpha = 2/|r0| - |v0|^2/mu, "
+              "|r0|, r0.v0 read off c0 and the Stumpff functions, it is its ONLY solution, and f r0 + g v0 is the position of the propagated state, axis by axis (elliptic and hyperbolic). "
+              "TERMINATION: over R the Newton loop of Form.M2E (start values, update, tolerance, reduction translated; loop shape checked) exits for EVERY mean anomaly and every 0 <= e < 1 "
+              "(monotone descent for |M'| <= pi - e; quadratic contraction around +-pi in the gap pi - e < |M'| <= pi; M' = -pi) and for every e > 1 and every M whatever the start value "
+              "(hence with the clamped start of 31f549a); a returned anomaly solves Kepler's equation within 2 tol (1+e), resp. 8 e cosh H tol^2. "
+              "PERIODICITY at cartesian level for every fuel: M2E commutes with whole turns, the translated way out is 2 pi-periodic, so after k periods the model of Orbit.propagate returns exactly "
+              "what it returns at once, also cartesian in / cartesian out through the translated orbit setter (cartesian -> keplerian -> eccentric -> mean). "
               "J2 keeps a, e, i, is linear in dt with exactly the first-order secular rates (no node drift at cos i = 0, no perigee drift at 5 cos^2 i = 1, "
-              "node rate = Earth's mean motion for the inclination returned by leo.sso), composes modulo 2 pi. Cartesian-level composition / inverse / "
-              "periodicity are proved from the form round trip as explicit hypotheses (C01). "
+              "node rate = Earth's mean motion for the inclination returned by leo.sso), composes modulo 2 pi; its domain is 0 <= e < 1 (j2_outside_domain_hyperbolic). "
+              "Cartesian-level composition / inverse are proved from the form round trip as explicit hypotheses (C01). "
               "Dates: delta_t and the target date are translated from the head of Kepler.propagate / J2.propagate into the C03 date model (instant on TAI + own scale); for an epoch and "
               "a target in ANY pair of the six scales delta_t is the difference of the two instants (exactly for whole-microsecond dates, within 1 us otherwise), M advances by n times it, "
               "J2 drifts at the secular rates times it, the result carries the requested date, relabelling either date in another scale changes nothing, composition / inverse through "
               "dates in any three scales are exact; a timedelta argument is the date epoch + timedelta and advances M by n times the timedelta in TAI, TT, GPS (also across leap seconds, "
               "every Earth-orientation environment) and in any scale when the offset to TAI does not change (UTC when no leap second intervenes); UTC -> TT spelled out "
-              "(readings minus 32.184 s minus TAI-UTC). The propagator object re-reads the orbit (elements and epoch) on every call (history independence); "
-              "the Newton loop of Form.M2E (translated start values / update / tolerance, loop shape checked) is left on convergence only, so a returned anomaly solves Kepler's equation "
-              "for the advanced mean anomaly within 2e-8 (1+e); for the anomaly reduced to [-pi, pi) (as the code does since b41fd8b) with |M'| <= pi - e the loop provably exits (monotone Newton descent). Differential correspondence of the whole chain (update, M2E, "
-              "eccentric -> true -> cartesian, all in Lean) against Orbit.propagate from every form, on single calls and on call histories with in-place modifications.")
-LEVEL_NOTE = ("R -> double gap covered only by tolerance-bounded correspondence; form conversions (C01) enter as hypotheses; that advancing M at rate n solves the "
-              "two-body ODE is proved for bound orbits in the orbital plane only (hyperbolic case: oracle, independent universal-variable propagator); Lean kernel + propext/Classical.choice/Quot.sound; "
-              "py2lean translator and harness trusted")
-TECHNIQUE = "Lean 4 proof (ring / field identities, floor arithmetic) over formulas regenerated from the Python AST; differential correspondence; oracle on the real API"
+              "(readings minus 32.184 s minus TAI-UTC). The propagator object re-reads the orbit (elements and epoch) on every call (history independence). "
+              "Differential correspondence of the whole chain (setter on a cartesian orbit, update, M2E, eccentric -> true -> cartesian, all in Lean) against Orbit.propagate from every form, "
+              "around the Earth, the Moon and the Sun, on single calls and on call histories with in-place modifications.")
+LEVEL_NOTE = ("R -> double gap covered only by tolerance-bounded correspondence; form conversions other than the two chains named above (C01) enter as hypotheses of the cartesian-level "
+              "composition / inverse theorems; the two-body and universal-variable theorems are about the EXACT solution of Kepler's equation, the code returns the Newton iterate whose residual "
+              "is bounded by kepler_anomaly_residual(_hyperbolic); termination is proved over R, the double-precision iteration is covered by the 1 s watchdog and the fuel-bounded compiled model; "
+              "Lean kernel + propext/Classical.choice/Quot.sound; py2lean translator and harness trusted")
+TECHNIQUE = "Lean 4 proof (ring / field identities, floor arithmetic, real analysis: HasDerivAt, mean value theorem, intermediate value theorem) over formulas regenerated from the Python AST; differential correspondence; oracle on the real API"
 TRUSTED = [
-    "harness/py2lean.py: translates Infos.n, Body.mu, the body of Kepler.propagate and J2.propagate and the sso inclination formula into Generated/Propag{F,R}.lean on every run; "
+    "harness/py2lean.py: translates Infos.n, Body.mu, the body of Kepler.propagate and J2.propagate, the sso inclination formula, the pieces of Form.M2E and the five conversion edges "
+    "cartesian -> keplerian -> keplerian_eccentric -> keplerian_mean (orbit setter) and keplerian_eccentric -> keplerian -> cartesian (result) into Generated/Propag{F,R}.lean on every run; "
     "constants G, Earth mass/radius/J2 are read from the live beyond.constants module",
     "harness/props/C05.py DateTr / date_head: typed translation of the date arithmetic at the head of both propagate() methods (Date - Date, Date + timedelta, total_seconds) into the "
     "C03 date model; anything else (own-scale clock fields d, s, datetime, mjd) is refused and the run reported as broken; shape checks: `date` rebound only in the timedelta branch, "
@@ -117,38 +128,57 @@ TRUSTED = [
     "the propagators by the dated correspondence cases (model span / stamped scale vs `result.date - epoch`, cartesian state) in three Earth-orientation environments",
     "oracle: the instants of the dates handed in come from the harness's own offsets (32.184 s, 19 s, tai-utc.dat / finals read by C03.tables, documented TDB formula), not from the library",
     "lean/templates/Propag.tpl (hand-written glue: which element is updated, the modulo-2pi wrap of J2, the fuel-bounded Newton loop whose shape the extractor checks against "
-    "the source, the propagator object and its unconditional setter), tied by the correspondence run (single calls, slow-M2E inputs, histories)",
+    "the source, the order of the conversion edges on the way in and out, the propagator object and its unconditional setter), tied by the correspondence run (single calls, "
+    "cartesian in / cartesian out, slow-M2E inputs, histories)",
+    "Lemmas/Universal.lean stumpC / stumpS: the textbook Stumpff functions, hand-written (the reference solution is independent of the library; C19's lamC / lamS translated from lambert.py "
+    "have the same closed forms but cannot be imported next to C05's modules: Generated/LeoFnR and Generated/PropagR both define BeyondVerif.R.meanMotion)",
     "harness mirror of the M2E loop (m2e_iters) is used only to SELECT inputs on which the loop runs long, never as an expected value; a 1 s SIGALRM watchdog decides 'does not return'",
     "numpy / libm double arithmetic vs R: tolerance 1e-9 (1 + n|dt|) relative",
 ]
-ASSUMPTIONS = ["timedelta arguments: `advances M by n times the timedelta` is stated (and tested) for epochs in TAI, TT, GPS and for UTC when no leap second lies in the span; "
+ASSUMPTIONS = ["J2 clause: domain 0 <= e < 1, a > 0, mu > 0 (the guards of j2_rates_formula / j2_step_mod / j2_node_rate_eq_sso). The first-order secular rates are averages over a revolution and "
+               "the mean-anomaly rate contains sqrt(1 - e^2): they do not exist for an open orbit. For e > 1 J2.propagate evaluates np.sqrt of a negative number and returns an all-NaN state "
+               "without raising (recorded by the oracle probe `j2-hyperbolic`: every probe of every run; the compiled model returns NaN as well, the model over R is not faithful there: "
+               "j2_outside_domain_hyperbolic). This is read as outside the property, not as a violation: the statement speaks of rates that are undefined there and says nothing about errors",
+               "Kepler clauses: e in [1e-4, 0.95] with a > 0 and e in [1.01, 10] with a < 0 (the library's sign convention), mu > 0; the theorems hold for 0 <= e < 1 resp. e > 1",
+               "timedelta arguments: `advances M by n times the timedelta` is stated (and tested) for epochs in TAI, TT, GPS and for UTC when no leap second lies in the span; "
                "for UT1 / TDB epochs and UTC spans across a leap second a timedelta is propagated as the date `epoch + timedelta` (consistency with that date is tested, not n*timedelta)",
                "dates within 2 minutes of a leap second and UT1 readings within 5 s of midnight (C03's open finding ut1-step-at-utc-midnight) are not generated; spans may cross leap seconds",
-               "cartesian-level theorems take the keplerian_mean <-> cartesian round trip (up to 2 pi k on M for e < 1) and the 2 pi-periodicity of mean -> cartesian as hypotheses hRT / hPer (C01)",
+               "cartesian-level composition / inverse take the keplerian_mean <-> cartesian round trip (up to 2 pi k on M for e < 1) as hypothesis hRT (C01); the 2 pi-periodicity hPer of "
+               "mean -> cartesian is now proved for the translated chain (meanToCart_shiftM), and periodicity needs no round trip (kepler_periodic_cartesian_in_out)",
                "theorems are over R; the implementation computes in IEEE doubles",
-               "frames are only labels here: the propagators never change the frame"]
+               "frames are only labels here: the propagators never change the frame; the attracting body enters through mu only (Earth, Moon, Sun in the runs)"]
 NOT_COVERED = ["the date arithmetic itself (Date construction, offsets, `-`, `+`) is C03's subject: here its model is used, and tied to the propagators by the dated cases only; "
                "`datetime` arguments are refused by the library (TypeError; tallied by the oracle), numpy datetime64 / float arguments likewise",
-               "two-body solution: proved for bound orbits in the orbital plane (kepler_solves_two_body: perifocal coordinates of the propagated state satisfy r'' = -mu r/|r|^3 with the same mu); "
-               "the hyperbolic counterpart, the constant rotation of the orbital plane into the frame, and that the library's mean -> cartesian conversion computes these coordinates (C01) are not formalised; "
-               "agreement with the independent universal-variable solution (elliptic and hyperbolic, both time directions) is oracle only",
-               "J2 on hyperbolic orbits: the code returns NaN silently (sqrt(1 - e^2)); secular J2 theory is defined for bound orbits only, the model reproduces the NaN, the theorems assume e < 1 where sqrt matters"]
-OPEN = ["termination of Form.M2E (elliptic branch, code after fix b41fd8b) is proved over R for reduced mean anomalies |M'| <= pi - e (kepler_m2e_terminates_partial: monotone Newton descent, at most e/tol + 2 passes); "
-        "remaining gap: pi - e < |M'| <= pi (within e of apogee the start value M' +- e overshoots +-pi into the region of the other curvature; <= 11 passes on 1e6 sampled inputs, oracle m2e_case) "
-        "and the double-precision iteration itself (R -> double; covered by the 1 s watchdog families m2e-no-return-*, the pinned regression inputs and the fuel-bounded compiled model); hyperbolic branch: no termination theorem",
+               "the conversions from the other eight element forms to keplerian_mean (orbit setter on a non-cartesian orbit) and the exact mean -> cartesian -> mean round trip are C01's; "
+               "here only the cartesian way in and the way out are modelled",
+               "universal-variable VELOCITY (f-dot, g-dot) is not formalised (position via f, g is; the velocity of the propagated state is the derivative of that position by "
+               "kepler_solves_two_body_cartesian); the numerical universal-variable solver of the oracle (bracketed Newton in double precision) remains an oracle",
+               "parabolic orbits (e = 1 exactly) and e in (0.95, 1.01) are outside the property's domain; the hyperbolic branch of M2E divides by e cosh H - 1, which vanishes at e = 1, H = 0"]
+OPEN = ["termination of Form.M2E is proved over R (kepler_m2e_terminates, kepler_m2e_terminates_hyperbolic); what stays open is the double-precision iteration itself (R -> double): "
+        "covered by the 1 s watchdog families m2e-no-return-*, the pinned regression inputs, the edge inputs of gen_m2e_input and the fuel-bounded compiled model (10^4 passes), not by proof; "
+        "no bound on the NUMBER of passes better than e/tol + 2 (ellipse, descent regime) is proved — observed: <= 6 passes for e <= 0.95, <= 31 for hyperbolas over 6e5 domain samples",
+        "seeded change C05-m2 (cap of 50 passes) is reported as `no-failing-input-found`: since the fixes b41fd8b (reduction) and 31f549a (clamped start) no input in the domain needs more "
+        "than 31 passes, and a differential run of capped vs uncapped M2E over 4e5 inputs (e up to 1 +- 1e-16, |M| up to 1e300) differs only for |M| > 3e16 with 1 - e < 1e-6, "
+        "far outside the domain: within the property's domain the change has no observable effect; it is caught because the extractor refuses any loop that can be left before convergence",
         "known findings C05-hyperbolic-M2E-overflow (31f549a) and C05-m2e-no-return-ell (b41fd8b) are fixed in /repo; their oracle families stay alive (reversing either fix gives a VIOLATION with a replay)"]
-RULE = ("correspondence: random orbits (e log/uniform in [1e-4,0.95] and [1.01,10], perigee radius 6.6e6..5e7 m, every form the conic admits, dt in +-30 d quantised to ms) through "
-        "Orbit.propagate (Kepler, J2) vs real mean->cartesian applied to the Lean model's elements on the real cartesian->mean elements; non-trivial = dt != 0; distinct = distinct request line. "
+RULE = ("correspondence: random orbits (e log/uniform in [1e-4,0.95] and [1.01,10], perigee radius 6.6e6..5e7 m around the Earth, scaled by 0.3 around the Moon and 3000 around the Sun "
+        "(frames of beyond.env.solarsystem: a second and third mu), every form the conic admits, dt in +-30 d quantised to ms) through "
+        "Orbit.propagate (Kepler, J2) vs real mean->cartesian applied to the Lean model's elements on the real cartesian->mean elements, and vs the Lean chain; every cartesian-form case and every "
+        "third other case rebuilt in cartesian form additionally through driver command propc: the WHOLE call in the model from the six cartesian numbers (setter elements compared too); "
+        "non-trivial = dt != 0; distinct = distinct request line. "
         "plus the Kepler inputs with the most Newton passes among 2e4 (2e5) domain candidates, plus call histories (propagate / modify in place: element, velocity scaling, form, date / propagate again, "
         "epoch shifted or RELABELLED in another scale; timedelta, date in the epoch's scale, date in a drawn scale) threaded through the model's propagator object (driver command histd: "
         "the model is given scale + clock reading of epoch and target and computes the span itself), one third of them in a drawn Earth-orientation environment with the epoch in a drawn scale; "
         "single dated propagations: propagator x {no EOP, constant mocked record, real tests/data/pole database} x scale of the epoch x scale of the target (all 2 x 3 x 36, 3 (40) sweeps), "
         "every seventh a timedelta, a third of the real-database epochs placed so that the span crosses a leap second; the model's cartesian state comes from the Lean chain with fuel 1e4. "
         "oracle: element constancy, M advance, composition, inverse, periodicity, universal-variable two-body solution (1e-5), J2 secular rates from the textbook formula, polar / critical / sso, "
-        "Kepler-equation residual of Form.M2E over the domain, history = fresh orbit, every call under a watchdog (no return = failure), pinned regression inputs; "
+        "Kepler-equation residual of Form.M2E over the domain and at its edges (e at 1e-4 / 0.95 / 1.01 / 1.6 / 3.6 / 10, reduced anomaly within 1e-14..1e-1 of 0 and +-pi, clamp threshold), "
+        "history = fresh orbit, two orbits iterated in lockstep = fresh orbits, one propagator object with the orbit assigned once and propagate() called five times in mixed order = fresh orbits, "
+        "every call under a watchdog (no return = failure), pinned regression inputs; "
         "every Kepler / J2 clause again with the dates handed in as Date objects (gen_dated: environment x epoch scale x first target scale through all 3 x 36 combinations, 2 (12) sweeps per "
         "propagator; the composition legs, the way back and the period in further drawn scales or as timedelta; expected values from the elapsed time between the instants computed by the harness; "
-        "the result must carry the requested date and scale); iter(dates=mixed scales), iter(start in another scale, stop, step), datetime arguments (api_case)")
+        "the result must carry the requested date and scale); iter(dates=mixed scales), iter(start in another scale, stop, step), datetime arguments (api_case); "
+        "J2 on hyperbolic orbits is probed and recorded, not judged")
 
 REPO = core.REPO
 KEPLER_PY = os.path.join(REPO, "beyond", "propagators", "kepler.py")
